@@ -34,6 +34,7 @@ def run(ctx):
     ctx.rule(fft_pairing)
     ctx.rule(prep)
     ctx.rule(logfloor)
+    ctx.rule(power)
     ctx.rule(si_finalize, "R-C03-frame-count")
 
 
@@ -218,6 +219,57 @@ def prep(ctx, R="R-C03-prep"):
     fl = ev.env.get("self._frame_length")
     ctx.check(fl is not None and S.compare(fl, S.sub(S.add(ms, ev.env.get("self._frame_shift")), S.ONE), domain={})["verdict"] == "equal", R, init, init.node,
               "frame_length = max_support + frame_shift - 1")
+
+
+def power(ctx, R="R-C03-power"):
+    """What is integrated is |y|^p of the filtered signal y: y * conj(y) for use_power, |y| otherwise.  For a complex bank
+    (Gabor, gammatone) y is complex, so y**2 integrates Re(y^2), not the power."""
+    prog = ctx.prog
+    f = prog.own_method(_si(prog), "_fill_y_buf")
+    for pw in (True, False):
+        ev = SymEval(prog, f, seed={"self._power": pw}, inline_props=False).run()
+        acc = [n for n in f.body_nodes() if isinstance(n, ast.AugAssign) and isinstance(n.target, ast.Subscript) and astq.is_self_attr(n.target.value, f.params[0])]
+        ctx.need(len(acc) == 1, R, "accumulation into the block accumulators not found in _fill_y_buf")
+        v = ev.eval_at(acc[0], acc[0].value)
+        ys = [x for x in S.walk(v) if x.op == "call" and x.args[0] == "._compute_idft"]
+        ctx.need(ys, R, "the accumulated value does not come from the inverse transform: %s" % S.show(v)[:120])
+        # Y: the retained part of the inverse transform
+        Y = None
+        for x in S.walk(v):
+            if cc.is_call(x, "getitem") and x.args[1] in ys:
+                Y = x
+        ctx.need(Y is not None, R, "retained slice of the inverse transform not found")
+        ysym = S.sym("Y")
+        v2 = S.subst(v, {Y: ysym})
+        core = [x for x in S.walk(v2) if "Y" in S.symbols(x) and not (cc.is_call(x, "getitem") or (x.op == "call" and x.args[0] in (".real", "np.sum", "kw:axis")) or x.op in ("mul",) and False)]
+        # innermost expression of Y that is sliced: strip getitem / .real wrappers from the integrand
+        integrand = None
+        for x in S.walk(v2):
+            if cc.is_call(x, "getitem") and "Y" in S.symbols(x.args[1]):
+                integrand = x.args[1]
+        ctx.need(integrand is not None, R, "integrand not found in %s" % S.show(v2)[:120])
+        conj = S.call(".conj", ysym)
+        absy = [S.call("abs", ysym), S.call("np.abs", ysym), S.call("np.absolute", ysym)]
+        mod2 = [S.mul(ysym, conj), S.mul(conj, ysym)] + [S.power(a, S.lift(2)) for a in absy] + \
+            [S.add(S.power(S.call(".real", ysym), S.lift(2)), S.power(S.call(".imag", ysym), S.lift(2)))]
+        sq = [S.power(ysym, S.lift(2)), S.mul(ysym, ysym)]
+        if pw:
+            if integrand in sq:
+                ctx.bad(R, f, acc[0], "with use_power the integrand is y**2: for complex banks (Gabor, gammatone) the inverse transform y is complex and "
+                        "Re(y^2) = Re(y)^2 - Im(y)^2 is integrated instead of the power |y|^2", "the power is y * conj(y)")
+            elif integrand in mod2:
+                ctx.ok(R, f.loc(acc[0]), "use_power: the integrand is |y|^2 (%s)" % S.show(integrand))
+            else:
+                raise AnalysisError("%s: unrecognised power integrand %s" % (R, S.show(integrand)[:100]))
+        else:
+            if integrand in absy:
+                ctx.ok(R, f.loc(acc[0]), "magnitude: the integrand is |y|")
+            elif integrand == ysym or integrand in sq or integrand in mod2:
+                ctx.bad(R, f, acc[0], "without use_power the integrand is %s, not the magnitude |y|" % S.show(integrand), "the magnitude is |y|")
+            else:
+                raise AnalysisError("%s: unrecognised magnitude integrand %s" % (R, S.show(integrand)[:100]))
+        ctx.check(cc.is_call(v2, "np.sum") and any(x.op == "mul" for x in S.walk(v2)), R, f, acc[0],
+                  "the integrand is weighted by the window and summed over the block", "accumulated value is %s" % S.show(v2)[:100])
 
 
 def logfloor(ctx, R="R-C03-logfloor"):
